@@ -717,17 +717,19 @@ func (m *Manager) publishBlockInternal(ctx context.Context) error {
 		return fmt.Errorf("failed to save block: %w", err)
 	}
 
+	newState.DAHeight = m.daHeight.Load()
+	// After this call m.lastState is the NEW state returned from ApplyBlock
+	// updateState also commits the DB tx. The state is written BEFORE the store height: a crash between
+	// the two writes is then repaired at start-up, where NewManager raises the store height to the
+	// height of the recorded state.
+	if err = m.updateState(ctx, newState); err != nil {
+		return fmt.Errorf("failed to update state: %w", err)
+	}
+
 	// Update the store height before submitting to the DA layer but after committing to the DB
 	headerHeight := header.Height()
 	if err = m.store.SetHeight(ctx, headerHeight); err != nil {
 		return err
-	}
-
-	newState.DAHeight = m.daHeight.Load()
-	// After this call m.lastState is the NEW state returned from ApplyBlock
-	// updateState also commits the DB tx
-	if err = m.updateState(ctx, newState); err != nil {
-		return fmt.Errorf("failed to update state: %w", err)
 	}
 
 	m.recordMetrics(data)
